@@ -5,7 +5,7 @@ import wsutil
 
 def run(tier):
     c = lib.Check("C13", tier)
-    d = 4 if tier == "thorough" else 3
+    d = 3  # thorough adds the 2-frame configuration at the same delay bound (D=4 with the failing-ping / close-frame scenarios and the one-writer rule did not finish within 90 min)
     c.assumptions = list(wsutil.WS_ASSUMPTIONS) + [
         "ORACLE at quiescence: read error / peer close => error reported (at most once) and closed-query answers (true, non-nil); write failure at the k-th write (if reached) likewise; local close => no error reported; no frame read after the closed flag was set is delivered; both pumps terminated, conn.Close() called, no writer blocked",
     ]
